@@ -41,9 +41,25 @@ EXPLORED, not proved (ctx.explored['history_differential'], oracle = the impleme
   and parameters (trivial; X/Z-swapped logical labels; logicals times a stabilizer), interleaved with the base class in
   both orders; the digests of the matrices the call's code object publishes after the call are part of the compared
   result (a subclass object is a different code: nothing it computes may be served to the base class or vice versa).
+  PARAMETER EXTREMES (class 'extreme', `gen_extreme_history`): every decoder of the history pools with its constructor
+  parameters at the ends of their documented domains — CMWPM factor in {0, 1e-300, 1e-200, 1, 1e200, 1e300, 1e308} x
+  max_iterations {0..8} x every box shape / distance algorithm; MPS family chi in {1, 2, 3}, tol from 1e-300 to 1e300
+  (tol >= 1 discards every singular value); SMWPM eta from 1e-300 to 1e300 / None — and error probabilities 1e-300 … 1e-8,
+  0.5 ± 1e-12, 1 - 1e-9, 1 - 1e-16.  Only there do the decoders take their caught-and-logged exception paths (CMWPM:
+  FloatingPointError inside `np.errstate(all='raise')`), and only at very low probabilities do later truncated MPS-family
+  calls underflow silently, i.e. observe a numeric-error setting leaked by an earlier call; a planar station with CMWPM
+  next to truncated MPS / RMPS decoders is part of every such history, and the probe battery of the global-state follow-up
+  contains low-probability truncated decodes / runs of every tensor-network decoder (`lowp_probes`).
+  IDENTICAL-CALL REPEATS (class 'y-repeat', `gen_y_history`): PlanarYDecoder's coin toss is documented for EXACTLY tied
+  cosets only.  For Y-only errors (weight 0, 1, 2, light, typical, heavy) on sizes of all gcd regimes, p from 1e-300 to
+  1 - 1e-16 incl. 0.5 ± 1e-12 / 2^-40 / 2^-30, the exact relative gap of the two coset sums is computed from the exact
+  reference (c10_ybig.YRef, integers over the exact values of the floats); when it is >= 1e-40 the identical decode is
+  repeated 8–16 times with the global `random` module seeded DIFFERENTLY each time and all answers must agree (note
+  'NONDET', key nondeterministic:<decoder>:decode); exactly tied / nearer inputs are decoded once, pinned, as before.
 Excluded / pinned (random or stateful by documented design): MPS/RMPS skip-truncate masks (stp is never set: the mask
   comes from an unseeded default_rng()), PlanarYDecoder's random.choice between exactly tied cosets (random.seed pinned
-  before every call in both processes), FileErrorModel (cursor) is not used.
+  before every call in both processes; for provably untied inputs it is NOT pinned: see repeats), FileErrorModel (cursor)
+  is not used.
 """
 import functools
 import json
@@ -68,7 +84,9 @@ RULE = ('memo: random call histories (<=40 calls, 15 keys, cap in {None,0,1,2,3,
         'kinds x random_seed value class (0, small, 2^32-1, 2^63, 2^64, up to 256-bit), uniforms from a twin generator; '
         'non-trivial = a run with >=1 failure or measurement noise or >=2 runs. '
         'history differential (shared objects vs fresh process per call; process-global state monitor; exactly tied '
-        'syndromes for all TN decoders / modes; user subclasses interleaved with base classes): see coverage.explored')
+        'syndromes for all TN decoders / modes; user subclasses interleaved with base classes; decoder parameters and '
+        'probabilities at the ends of their domains; identical Y-decodes of provably untied cosets repeated 8-16 times '
+        'under different `random` states): see coverage.explored')
 
 HERE = os.path.dirname(os.path.abspath(__file__))
 EXEC = os.path.join(os.path.dirname(HERE), 'c06_exec.py')
@@ -838,6 +856,10 @@ def gen_history(rng, length):
         if rng.random() < 0.5:
             codes, decs, ems = with_subclasses(rng, codes, decs, ems)
         stations.append((codes, decs, ems, ps))
+    return history_from_stations(rng, stations, length)
+
+
+def history_from_stations(rng, stations, length, tie_p=lambda p: True):
     focus = {}
     specs = []
     for _ in range(length):
@@ -857,13 +879,158 @@ def gen_history(rng, length):
             fk = json.dumps(code)
             if fk not in focus:
                 focus[fk] = (rng.randrange(10 ** 6), rng.randrange(10 ** 6), rng.choice('XYZ'))
-            spec.update(gen_syndrome(rng, code, em, op, focus[fk], p=p, tie_ok=is_tn(dec)))
+            spec.update(gen_syndrome(rng, code, em, op, focus[fk], p=p, tie_ok=is_tn(dec) and tie_p(p)))
         else:
             spec['seed'] = rand_seed(rng)
             if op in ('run_once_ftp', 'run_ftp'):
                 spec['T'] = rng.choice([1, 2, 3]); spec['q'] = rng.choice([None, 0.0, 0.1])
             if op in ('run', 'run_ftp'):
                 spec['max_runs'] = rng.choice([1, 2, 3, 4]); spec['max_failures'] = rng.choice([None, None, 1, 2])
+        specs.append(spec)
+    return specs
+
+
+# ---- parameter EXTREMES: every constructor parameter / probability at the ends of its documented domain.  The caught-and-
+# logged exception paths of the decoders (CMWPM: FloatingPointError for huge / tiny `factor`; MPS family: zero state after
+# truncation, tol discarding every singular value; SMWPM: weights at the ends of the float range) are only reachable there.
+
+CMWPM_FACTORS = [0, 1e-300, 1e-200, 1, 1e200, 1e300, 1e308]
+TN_TOLS = [1e-300, 1e-100, 1e-16, 1e-8, 0.1, 0.5, 0.999, 1.0, 1.5, 1e3, 1e300]
+SMWPM_ETAS = [None, 1e-300, 1e-9, 0.5, 1, 1e9, 1e300]
+LOW_PS = [1e-300, 1e-200, 1e-100, 1e-50, 1e-20, 1e-8]
+EXTREME_PS = LOW_PS + [0.5 - 1e-12, 0.5 + 1e-12, 1 - 1e-9, 1 - 1e-16]
+NORMAL_PS = [0.02, 0.05, 0.1, 0.15, 0.2, 0.3, 0.45]
+
+
+def x_cmwpm(rng):
+    return ['PlanarCMWPMDecoder', {'factor': rng.choice(CMWPM_FACTORS), 'max_iterations': rng.choice([0, 1, 2, 4, 4, 8]),
+                                   'box_shape': rng.choice('trfl'), 'distance_algorithm': rng.choice([1, 2, 4])}]
+
+
+def x_tn(rng, name, mode=True):
+    kw = {'chi': rng.choice([1, 2, 2, 3])}
+    if rng.random() < 0.5:
+        kw['tol'] = rng.choice(TN_TOLS)
+    if mode:
+        kw['mode'] = rng.choice('cra')
+    return [name, kw]
+
+
+def xfam_planar(rng):
+    codes = [['PlanarCode', s] for s in rng.sample([[2, 2], [3, 3], [3, 4], [4, 4], [3, 5], [5, 3], [5, 5]], 2)]
+    decs = [x_cmwpm(rng), x_cmwpm(rng), x_tn(rng, 'PlanarMPSDecoder'), x_tn(rng, 'PlanarRMPSDecoder'),
+            rng.choice([['PlanarMWPMDecoder', {}], ['PlanarYDecoder', {}], x_cmwpm(rng)])]
+    return codes, decs, general_ems(rng)
+
+
+def xfam_rplanar(rng):
+    codes = [['RotatedPlanarCode', s] for s in rng.sample([[3, 3], [3, 5], [5, 3], [5, 5], [4, 4], [4, 5]], 2)]
+    decs = [x_tn(rng, 'RotatedPlanarMPSDecoder'), x_tn(rng, 'RotatedPlanarRMPSDecoder'),
+            ['RotatedPlanarSMWPMDecoder', {'eta': rng.choice(SMWPM_ETAS)}],
+            ['RotatedPlanarSMWPMDecoder', {'eta': rng.choice(SMWPM_ETAS)}]]
+    return codes, decs, smwpm_ems(rng)
+
+
+def xfam_rtoric(rng):
+    codes = [['RotatedToricCode', s] for s in rng.sample([[2, 2], [4, 4], [4, 6], [6, 4]], 2)]
+    decs = [['RotatedToricSMWPMDecoder', {'eta': rng.choice(SMWPM_ETAS), 'itp': rng.random() < 0.3}] for _ in range(3)]
+    return codes, decs, smwpm_ems(rng)
+
+
+def xfam_color(rng):
+    codes = [['Color666Code', [3]], ['Color666Code', [5]]]
+    decs = [x_tn(rng, 'Color666MPSDecoder', mode=False), x_tn(rng, 'Color666MPSDecoder', mode=False)]
+    return codes, decs, general_ems(rng)
+
+
+XFAMS = [xfam_planar, xfam_planar, xfam_planar, xfam_rplanar, xfam_rtoric, xfam_color]
+
+
+def gen_extreme_history(rng, length, k):
+    """a history over decoders with parameters at the ENDS of their domains and error probabilities from 1e-300 to
+    1 - 1e-16; a planar station (CMWPM with extreme factors next to truncated MPS decoders) is always present, so that
+    calls taking a caught-exception path are followed by calls at very low probabilities on other objects"""
+    fams = [xfam_planar] + ([rng.choice(XFAMS)] if k % 2 else [])
+    stations = []
+    for fam in fams:
+        codes, decs, ems = fam(rng)
+        ps = rng.sample(LOW_PS, 2) + [rng.choice(EXTREME_PS), rng.choice(NORMAL_PS)]
+        stations.append((codes, decs, ems, ps))
+    h = history_from_stations(rng, stations, length, tie_p=lambda p: 1e-3 < p < 0.999)
+    for sp in h:
+        sp['class'] = 'extreme'
+    return h
+
+
+# ---- identical-call REPEATS for the decoder with documented randomness: PlanarYDecoder tosses a coin between EXACTLY tied
+# cosets and only then.  Whether the two cosets are exactly tied is decided by the exact reference (c10_ybig.YRef: GF(2)
+# kernel of the Y-syndrome map, integer coset sums over the exact values of the floats); for every decode that is NOT
+# exactly tied, N >= 8 identical calls with the global `random` module in N different states must agree.
+
+Y_PS = [1e-300, 1e-200, 1e-100, 1e-20, 1e-6, 0.01, 0.1, 0.3, 0.5 - 1e-12, 0.5 + 1e-12, 0.5 - 2.0 ** -40, 0.5 + 2.0 ** -30,
+        0.5, 0.7, 1 - 1e-9, 1 - 1e-16]
+Y_CODES = [[2, 2], [3, 3], [4, 4], [2, 4], [4, 2], [3, 6], [2, 3], [3, 4], [4, 5], [5, 4], [3, 5], [5, 6], [4, 6], [6, 4],
+           [6, 9]]
+Y_EMS = [['BitPhaseFlipErrorModel', []], ['BitPhaseFlipErrorModel', []], ['DepolarizingErrorModel', []],
+         ['BiasedDepolarizingErrorModel', [10, 'Y']], ['BiasedDepolarizingErrorModel', [0.5, 'Y']],
+         ['BiasedYXErrorModel', [3]]]
+Y_MIN_GAP = Fraction(1, 10 ** 40)  # the decoder compares 50-digit sums of positive terms
+_YREF = {}
+
+
+def y_gap(code, em, p, ex):
+    """exact relative gap |P(coset 1) - P(coset 2)| / max of the two Y-only coset sums of the Y-only error with x-half `ex`
+    (Fraction; 0 = exactly tied)"""
+    from qv import c10_ybig as YB
+    k = json.dumps(code)
+    if k not in _YREF:
+        _YREF[k] = YB.YRef(make_code(code))
+    ref = _YREF[k]
+    pd = make_em(em).probability_distribution(p)
+    pI, pY = Fraction(float(pd[0])), Fraction(float(pd[2]))
+    D = max(pI.denominator, pY.denominator)  # powers of two
+    sums = YB.exact_sums(ref.classes(np.asarray(ex, dtype=np.uint8)), ref.n, int(pI * D), int(pY * D))
+    best = max(sums)
+    return Fraction(0) if best == 0 else Fraction(abs(sums[0] - sums[1]), best)
+
+
+def gen_y_history(rng, length):
+    codes = [['PlanarCode', s] for s in rng.sample(Y_CODES, 3)]
+    if rng.random() < 0.3:
+        codes.append([codes[0][0] + '~plain', codes[0][1]])
+    dec = ['PlanarYDecoder', {}]
+    specs = []
+    for _ in range(length):
+        if specs and rng.random() < 0.15:
+            spec = json.loads(json.dumps(rng.choice(specs)))
+            spec['mut'] = rng.randrange(2 ** 16); spec['again'] = True
+            specs.append(spec)
+            continue
+        code, em, p = rng.choice(codes), rng.choice(Y_EMS), rng.choice(Y_PS)
+        if rng.random() < 0.12:
+            specs.append({'op': 'run', 'code': code, 'dec': dec, 'em': ['BitPhaseFlipErrorModel', []],
+                          'p': rng.choice([0.05, 0.1, 0.3]), 'mut': rng.randrange(2 ** 16), 'seed': rand_seed(rng),
+                          'max_runs': rng.choice([1, 2, 4]), 'max_failures': None, 'class': 'y-repeat'})
+            continue
+        base = [code[0].split('~')[0], code[1]]
+        n = code_info(base)[1].shape[1] // 2
+        kind = rng.choice(['none', 'one', 'two', 'two', 'light', 'typical', 'heavy'])
+        w = {'none': 0, 'one': 1, 'two': 2, 'light': rng.randint(2, 4), 'heavy': rng.randint(n // 3, n // 2 + 1)}.get(kind)
+        ex = np.zeros(n, dtype=np.uint8)
+        if w is None:
+            ex = (np.array([rng.random() for _ in range(n)]) < rng.choice([0.05, 0.1, 0.2])).astype(np.uint8)
+        else:
+            ex[rng.sample(range(n), min(w, n))] = 1
+        gap = y_gap(base, em, p, ex)
+        ref = _YREF[json.dumps(base)]
+        spec = {'op': 'decode', 'code': code, 'dec': dec, 'em': em, 'p': p, 'mut': rng.randrange(2 ** 16),
+                'syn': bits(ref.syndrome(ex)), 'err': bits(np.concatenate((ex, ex))), 'class': 'y-repeat'}
+        if gap >= Y_MIN_GAP:
+            spec['syn_class'] = 'y-untied'
+            spec['repeats'] = rng.choice([8, 12, 16])
+            spec['gap'] = '{:.3e}'.format(float(gap)) if gap > Fraction(1, 10 ** 300) else 'below 1e-300, not 0'
+        else:
+            spec['syn_class'] = 'y-tied' if gap == 0 else 'y-near-tied'
         specs.append(spec)
     return specs
 
@@ -979,6 +1146,7 @@ def probe_battery(rng, size):
         _, S, Ssw, _ = code_info(code)
         out.append({'op': 'decode', 'code': code, 'dec': dec, 'em': em, 'p': p, 'syn': bits((e @ Ssw.T) % 2),
                     'syn_class': 'tied'})
+    out += lowp_probes(rng, max(30, size // 3))
     for code, dec in ([['PlanarCode', [4, 2]], ['PlanarMPSDecoder', {'mode': 'a'}]],
                       [['PlanarCode', [2, 4]], ['PlanarRMPSDecoder', {'mode': 'a'}]],
                       [['PlanarCode', [3, 3]], ['PlanarYDecoder', {}]], [['PlanarCode', [4, 4]], ['PlanarMWPMDecoder', {}]],
@@ -987,6 +1155,33 @@ def probe_battery(rng, size):
                       [['SteaneCode', []], ['NaiveDecoder', {}]]):
         out.append({'op': 'run', 'code': code, 'dec': dec, 'em': ['DepolarizingErrorModel', []], 'p': 0.1,
                     'seed': rng.randrange(2 ** 16), 'max_runs': 40, 'max_failures': None})
+    return out
+
+
+def lowp_probes(rng, size):
+    """calls that are sensitive to process-global NUMERIC ERROR HANDLING (numpy errstate, warnings turned into errors):
+    truncated tensor-network decodes and seeded runs at very low error probabilities, where products underflow silently
+    by default — the later calls that a leaked `raise` setting would change"""
+    out = []
+    cfgs = [('PlanarCode', [[3, 3], [4, 4], [5, 5], [3, 5]], ['PlanarMPSDecoder', 'PlanarRMPSDecoder'], True),
+            ('RotatedPlanarCode', [[3, 3], [5, 5], [4, 5]], ['RotatedPlanarMPSDecoder', 'RotatedPlanarRMPSDecoder'], True),
+            ('Color666Code', [[5]], ['Color666MPSDecoder'], False)]
+    ems = [['DepolarizingErrorModel', []], ['BitFlipErrorModel', []], ['BiasedDepolarizingErrorModel', [10, 'Y']]]
+    while len(out) < size:
+        cname, sizes, names, mode = rng.choice(cfgs)
+        code = [cname, rng.choice(sizes)]
+        dec = [rng.choice(names), {'chi': rng.choice([1, 2, 4])}]
+        if mode:
+            dec[1]['mode'] = rng.choice('cra')
+        em, p = rng.choice(ems), rng.choice(LOW_PS)
+        if rng.random() < 0.2:
+            out.append({'op': 'run', 'code': code, 'dec': dec, 'em': em, 'p': p, 'seed': rng.randrange(2 ** 16),
+                        'max_runs': 3, 'max_failures': None})
+            continue
+        c, S, Ssw, _ = code_info(code)
+        e = np.array(make_em(em).generate(c, 0.1, np.random.default_rng(rng.randrange(2 ** 32))))
+        out.append({'op': 'decode', 'code': code, 'dec': dec, 'em': em, 'p': p, 'syn': bits((e @ Ssw.T) % 2),
+                    'syn_class': 'low-p'})
     return out
 
 
@@ -1049,6 +1244,10 @@ def part_history(ctx):
     rng = ctx.rng
     n_hist = ctx.scale(100, 1800)
     histories = [gen_history(rng, rng.choice([8, 12, 16, 20])) for _ in range(n_hist)]
+    # parameter EXTREMES and identical-call REPEATS (generated after the general histories: their draw is unchanged)
+    histories += [gen_extreme_history(rng, rng.choice([10, 14, 18]), k) for k in range(ctx.scale(14, 220))]
+    histories += [gen_y_history(rng, rng.choice([10, 14])) for _ in range(ctx.scale(6, 90))]
+    n_hist = len(histories)
     flat = [(h, i) for h in range(n_hist) for i in range(len(histories[h]))]
     n_workers = ctx.scale(3, 5)
     hs = [rng.randrange(1, 2 ** 31) for _ in range(2 * n_workers)]
@@ -1088,6 +1287,14 @@ def part_history(ctx):
         ctx.count('hist.op', spec['op']); ctx.count('hist.decoder', spec['dec'][0])
         ctx.count('hist.code', spec['code'][0]); ctx.count('hist.em', spec['em'][0])
         ctx.count('hist.syn_class', spec.get('syn_class', '-')); ctx.count('hist.again', bool(spec.get('again')))
+        ctx.count('hist.class', spec.get('class', 'general'))
+        if spec.get('class') == 'extreme':
+            ctx.count('hist.extreme.p', spec['p'])
+            for pk, pv in sorted(spec['dec'][1].items()):
+                if pk in ('factor', 'tol', 'eta', 'chi', 'max_iterations'):
+                    ctx.count('hist.extreme.' + pk, pv)
+        if spec.get('repeats'):
+            ctx.count('hist.y_repeat.p', spec['p'])
         if 'seed' in spec:
             ctx.count('hist.seed', seed_class(spec['seed']))
         ctx.count('hist.result', 'EXC' if res.startswith('EXC') else ('TIMEOUT' if res == 'TIMEOUT' else 'value'))
@@ -1117,7 +1324,7 @@ def part_history(ctx):
     # shares memory with an earlier result or a cached array), ARG / CODE (arguments or code matrices modified) are
     # failures of the property as stated; CACHE-WRITE (a cached array changed in place during a call) is a lead only:
     # it is followed up by the differential itself (later calls of the history, repeats) and counted below
-    prio = {'REPEAT': 0, 'ALIAS': 1, 'ARG': 2, 'CODE': 3}
+    prio = {'NONDET': 0, 'REPEAT': 0, 'ALIAS': 1, 'ARG': 2, 'CODE': 3}
     leads = [x for x in mutated if x[2].startswith('CACHE-WRITE')]
     gleads = [x for x in mutated if x[2].startswith('GLOBAL')]
     gsummary = global_followup(ctx, histories, gleads, hs[0], hs[-1]) if gleads else {'leads': 0}
@@ -1126,11 +1333,13 @@ def part_history(ctx):
     seen_keys = set()
     for h, i, nt in hard:
         sp = histories[h][i]
-        k = 'mutation:{}:{}'.format(sp['em'][0] if sp['op'] == 'generate' else sp['dec'][0], sp['op'])
+        k = '{}:{}:{}'.format('nondeterministic' if nt.startswith('NONDET') else 'mutation',
+                              sp['em'][0] if sp['op'] == 'generate' else sp['dec'][0], sp['op'])
         if k in seen_keys or len(seen_keys) >= 3:
             continue
         seen_keys.add(k)
-        ctx.monitor_fail(nt, {'part': 'history', 'mode': 'mutation', 'history': histories[h][:i + 1], 'index': i,
+        hist = [histories[h][i]] if nt.startswith('NONDET') else histories[h][:i + 1]
+        ctx.monitor_fail(nt, {'part': 'history', 'mode': 'mutation', 'history': hist, 'index': len(hist) - 1,
                               'what': nt}, key=k)
     # pristine matrices: the shared code objects still show the matrices a fresh interpreter computes
     ctx.explored['history_differential'] = {
@@ -1151,7 +1360,9 @@ def part_history(ctx):
                 'logging, environ, cwd, decimal context, warnings filters, …) recorded around every call, a change is '
                 'followed up by the differential on the later calls and a battery of tie-sensitive decodes; every '
                 'history (shared) / every call (fresh) runs in its own forked process; user subclasses of codes / '
-                'decoders / error models are interleaved with their base classes'.format(hs),
+                'decoders / error models are interleaved with their base classes; histories of class extreme (decoder '
+                'parameters / probabilities at the ends of their domains) and y-repeat (identical untied Y-decodes under '
+                'different `random` states)'.format(hs),
         'wall_s': round(time.time() - t0, 1)}
     ctx.evaluations += compared
 
